@@ -501,6 +501,10 @@ Model generate(sim::Rng& rng, const GenOptions& opt) {
       for (int j = 0; j < members; ++j) { s.values.push_back({first + j, 3}); r.values.push_back({first + j, (double)(j + 1)}); }
       m.suffixes.push_back(s); m.suffixes.push_back(r);
     }
+    if (rng.chance(0.12)) {   // a re-solve: the file carries the *result* suffixes of an earlier run (.iis on variables and constraints)
+      Suffix s; s.name = "iis"; s.kind = 0; for (int j = 0; j < nv; ++j) s.values.push_back({j, (double)(1 + (j % 7))}); m.suffixes.push_back(s);
+      if (!m.cons.empty()) { Suffix t; t.name = "iis"; t.kind = 1; for (int i = 0; i < (int)m.cons.size(); ++i) t.values.push_back({i, (double)(1 + ((i + 3) % 7))}); m.suffixes.push_back(t); }
+    }
     if (rng.chance(0.1) && nobjs > 0) { Suffix s; s.name = "objpriority"; s.kind = 2; for (int i = 0; i < nobjs; ++i) s.values.push_back({i, (double)(i + 1)}); m.suffixes.push_back(s); }
   }
   if (rng.chance(0.3)) for (int j = 0; j < nv; ++j) if (rng.chance(0.7)) m.x0.push_back({j, 30000.0 + j + 0.125});
